@@ -280,6 +280,17 @@ fn rew_rule(rng: &mut Rng, id: String, lang: &'static str, f: &str) -> RuleSpec 
   ];
   shuffle(rng, &mut defs);
   defs.truncate(2 + rng.below(2));
+  // a rewriter that itself rewrites with ANOTHER rewriter of the list (arrays: their elements go
+  // through the number rewriter): the list may name the user before or after the one it uses
+  if rng.chance(1, 2) {
+    let num_id = format!("{id}-rw-num");
+    if !defs.iter().any(|d| d["id"] == json!(num_id)) {
+      defs.push(json!({"id": num_id, "rule": {"kind": "number", "pattern": "$N"}, "fix": "($N)"}));
+    }
+    defs.push(json!({"id": format!("{id}-rw-arr"), "rule": {"kind": "array", "pattern": "[$$$EL]"},
+      "transform": {"ELS": {"rewrite": {"source": "$$$EL", "rewriters": [num_id], "joinBy": "; "}}}, "fix": "list($ELS)"}));
+    shuffle(rng, &mut defs);
+  }
   let mut used: Vec<Value> = defs.iter().map(|d| d["id"].clone()).collect();
   shuffle(rng, &mut used);
   let first = json!({"rewrite": {"source": "$$$ARGS", "rewriters": used, "joinBy": *rng.pick(&[" + ", ", ", " | "])}});
@@ -300,7 +311,7 @@ fn rew_rule(rng: &mut Rng, id: String, lang: &'static str, f: &str) -> RuleSpec 
   let hits = (0..5)
     .map(|_| {
       let n = 2 + rng.below(3);
-      let args: Vec<&str> = (0..n).map(|_| *rng.pick(&["1", "42", "'two'", "'s'", "x", "yy", "g(3)"])).collect();
+      let args: Vec<&str> = (0..n).map(|_| *rng.pick(&["1", "42", "'two'", "'s'", "x", "yy", "g(3)", "[1, 2, x]", "[7]"])).collect();
       format!("{f}({}, {});", rng.pick(&IDENTS), args.join(", "))
     })
     .collect();
